@@ -40,6 +40,38 @@ pub fn long_text(n: usize) -> Vec<u8> {
     (0..n).map(|i| b"abcdefghij klmnopqrstuvwxyz"[i % 27]).collect()
 }
 
+/// `long_text(n)` with the given byte sequences written at the given offsets
+fn long_with(n: usize, marks: &[(usize, &[u8])]) -> Vec<u8> {
+    let mut v = long_text(n);
+    for (at, bytes) in marks {
+        v[*at..*at + bytes.len()].copy_from_slice(bytes);
+    }
+    v
+}
+
+/// Long-bracket eligible values whose bracket LEVEL matters: a closing sequence of a higher
+/// level before the first one of a lower level, several levels in both orders, a leading
+/// newline, a trailing `]`, the six-newlines form. (Values ending in `]=`.. are finding F14 of
+/// C13 and stay out.)
+pub fn level_sensitive_strings() -> Vec<Vec<u8>> {
+    let mut trailing = long_with(70, &[(8, b"]=]"), (30, b"]]")]);
+    trailing.push(b']');
+    let mut leading_newline = long_with(70, &[(12, b"]=]"), (40, b"]]")]);
+    leading_newline[0] = b'\n';
+    vec![
+        long_with(70, &[(10, b"]=]"), (40, b"]]")]),
+        long_with(80, &[(5, b"]==]"), (20, b"]=]"), (40, b"]]")]),
+        long_with(80, &[(5, b"]]"), (20, b"]=]"), (40, b"]==]")]),
+        long_with(80, &[(5, b"]==]"), (40, b"]]")]),
+        long_with(90, &[(3, b"]===]"), (20, b"]=]"), (30, b"]==]"), (60, b"]]")]),
+        trailing,
+        leading_newline,
+        b"]=]\n]]\nc\nd\ne\nf\ng h i j k l m".to_vec(),
+        b"x]==]\n]=]\n]]\nd\ne\nf\ng h i j k".to_vec(),
+        b"local banner = [=[ generated ]=] local first = rows[index[1]] return banner, first".to_vec(),
+    ]
+}
+
 pub fn string_pool() -> Vec<Vec<u8>> {
     let mut long_with_closer = long_text(70);
     long_with_closer[30] = b']';
@@ -69,6 +101,9 @@ pub fn string_pool() -> Vec<Vec<u8>> {
         long_end_bracket,
         b"l1\nl2\nl3\nl4\nl5\nl6\nl7 long enough".to_vec(),
     ]
+    .into_iter()
+    .chain(level_sensitive_strings())
+    .collect()
 }
 
 pub fn number_pool() -> Vec<Num> {
@@ -571,5 +606,231 @@ impl Gen {
             _ => None,
         };
         Blk { stmts, last }
+    }
+}
+
+// ---------------------------------------------------------------- adjacency family
+
+const KEYWORDS: [&str; 21] = [
+    "and", "break", "do", "else", "elseif", "end", "false", "for", "function", "if", "in", "local", "nil",
+    "not", "or", "repeat", "return", "then", "true", "until", "while",
+];
+
+fn is_word(c: char) -> bool {
+    c.is_ascii_alphanumeric() || c == '_'
+}
+
+/// expressions whose dense text ENDS with `c1` (as the last character of the last push)
+fn enders(c1: char) -> Vec<Ex> {
+    let mut v = Vec::new();
+    if is_word(c1) {
+        v.push(id(&format!("x{}", c1)));
+    }
+    if let Some(d) = c1.to_digit(10) {
+        v.push(num(d as f64));
+        v.push(Ex::Num(Num::Hex(0x10 + d as u64, false)));
+    }
+    if ('a'..='f').contains(&c1) {
+        v.push(Ex::Num(Num::Hex(c1.to_digit(16).unwrap() as u64, false)));
+    }
+    match c1 {
+        'e' => v.push(Ex::True),
+        'l' => v.push(Ex::Nil),
+        'd' => v.push(Ex::Func(Box::new(Func { params: vec![], variadic: false, body: Blk::default() }))),
+        '.' => v.push(Ex::Varargs),
+        ']' => v.push(Ex::Index(bx(id("t")), bx(num(1.0)))),
+        _ => {}
+    }
+    v
+}
+
+/// identifier starting with `c2`, if there is one that is not a keyword
+fn starter_name(c2: char) -> Option<String> {
+    if c2.is_ascii_alphabetic() || c2 == '_' {
+        let name = format!("{}x", c2);
+        if KEYWORDS.contains(&name.as_str()) { None } else { Some(name) }
+    } else {
+        None
+    }
+}
+
+/// Blocks in which the dense generator writes a token ending with `c1` directly followed (no
+/// comma, operator symbol or bracket in between) by a token starting with `c2`, through
+/// `push_str` / `push_char`, so that `should_break_with_space(c1, c2)` decides. `variant`
+/// rotates the statement forms so that the whole family stays small; `all_forms` asks for
+/// every form. Empty when the grammar never juxtaposes the two (see `unreachable_reason`).
+pub fn adjacency_witnesses(c1: char, c2: char, variant: usize, all_forms: bool) -> Vec<Blk> {
+    let mut out = Vec::new();
+    let a = id("a");
+    let empty = || Blk::default();
+    let pick = |forms: Vec<Blk>, out: &mut Vec<Blk>| {
+        if forms.is_empty() {
+            return;
+        }
+        if all_forms {
+            out.extend(forms);
+        } else {
+            out.push(forms[variant % forms.len()].clone());
+        }
+    };
+    // (1) statement ending with an expression ending with c1, next statement starting with c2
+    for e in enders(c1) {
+        let ending_statements = |e: &Ex| -> Vec<St> {
+            vec![
+                St::Local(vec!["v".into()], vec![e.clone()]),
+                St::Assign(vec![a.clone()], vec![num(1.5), e.clone()]),
+                St::Compound(0, a.clone(), e.clone()),
+                St::Repeat(empty(), e.clone()),
+            ]
+        };
+        let mut forms: Vec<Blk> = Vec::new();
+        if let Some(name) = starter_name(c2) {
+            let nexts = vec![
+                St::Assign(vec![id(&name)], vec![num(1.0)]),
+                St::CallSt(call(id(&name), vec![])),
+                St::Assign(vec![Ex::Field(bx(id(&name)), "f".into())], vec![num(2.0)]),
+                St::CallSt(Ex::Call(bx(id(&name)), Some("m".into()), Args::Tuple(vec![]))),
+            ];
+            for (i, first) in ending_statements(&e).into_iter().enumerate() {
+                forms.push(stmts(vec![first, nexts[i % nexts.len()].clone()]));
+            }
+            // expression followed by a keyword is (2); identifier after `return`/`not`… is (3)
+        }
+        // keyword-starting statements and clauses after the expression
+        let keyword_followers: Vec<(char, Blk)> = vec![
+            ('d', stmts(vec![St::Local(vec!["v".into()], vec![e.clone()]), St::Do(empty())])),
+            ('l', stmts(vec![St::Local(vec!["v".into()], vec![e.clone()]), St::Local(vec!["w".into()], vec![])])),
+            ('r', Blk { stmts: vec![St::Local(vec!["v".into()], vec![e.clone()])], last: Some(Last::Return(vec![])) }),
+            ('r', stmts(vec![St::Local(vec!["v".into()], vec![e.clone()]), St::Repeat(empty(), a.clone())])),
+            ('i', stmts(vec![St::Local(vec!["v".into()], vec![e.clone()]), St::If(vec![(a.clone(), empty())], None)])),
+            ('w', stmts(vec![St::Local(vec!["v".into()], vec![e.clone()]), St::While(a.clone(), empty())])),
+            ('f', stmts(vec![St::Local(vec!["v".into()], vec![e.clone()]), St::NFor("i".into(), num(1.0), num(2.0), None, empty())])),
+            ('f', stmts(vec![St::Local(vec!["v".into()], vec![e.clone()]), St::Function(vec!["g".into()], None, Func { params: vec![], variadic: false, body: empty() })])),
+            ('a', ret(vec![bin(0, e.clone(), a.clone())])),
+            ('o', ret(vec![bin(1, e.clone(), a.clone())])),
+            ('t', stmts(vec![St::If(vec![(e.clone(), empty())], None)])),
+            ('d', stmts(vec![St::While(e.clone(), empty())])),
+            ('d', stmts(vec![St::NFor("i".into(), num(1.0), e.clone(), None, empty())])),
+            ('d', stmts(vec![St::GFor(vec!["k".into()], vec![e.clone()], empty())])),
+            ('e', stmts(vec![St::If(vec![(a.clone(), ret(vec![e.clone()]))], None)])),
+            ('e', stmts(vec![St::If(vec![(a.clone(), ret(vec![e.clone()]))], Some(empty()))])),
+            ('e', stmts(vec![St::If(vec![(a.clone(), ret(vec![e.clone()])), (a.clone(), empty())], None)])),
+            ('e', stmts(vec![St::Do(stmts(vec![St::Local(vec!["v".into()], vec![e.clone()])]))])),
+            ('u', stmts(vec![St::Repeat(stmts(vec![St::Local(vec!["v".into()], vec![e.clone()])]), a.clone())])),
+            ('b', stmts(vec![St::While(a.clone(), Blk { stmts: vec![St::Local(vec!["v".into()], vec![e.clone()])], last: Some(Last::Break) })])),
+            ('c', stmts(vec![St::While(a.clone(), Blk { stmts: vec![St::Local(vec!["v".into()], vec![e.clone()])], last: Some(Last::Continue) })])),
+            ('e', ret(vec![Ex::IfExp(bx(a.clone()), bx(e.clone()), vec![], bx(a.clone()))])),
+            ('t', ret(vec![Ex::IfExp(bx(e.clone()), bx(a.clone()), vec![(e.clone(), a.clone())], bx(a.clone()))])),
+        ];
+        for (first, blk) in keyword_followers {
+            if first == c2 {
+                forms.push(blk);
+            }
+        }
+        pick(forms, &mut out);
+    }
+    // (2) keyword ending with c1 followed by an expression starting with c2
+    let mut starters: Vec<Ex> = Vec::new();
+    if let Some(name) = starter_name(c2) {
+        starters.push(id(&name));
+    }
+    if let Some(d) = c2.to_digit(10) {
+        starters.push(num(d as f64));
+    }
+    match c2 {
+        't' => starters.push(Ex::True),
+        'f' => {
+            starters.push(Ex::False);
+            starters.push(Ex::Func(Box::new(Func { params: vec![], variadic: false, body: Blk::default() })));
+        }
+        'n' => {
+            starters.push(Ex::Nil);
+            starters.push(un(2, a.clone()));
+        }
+        'i' => starters.push(Ex::IfExp(bx(a.clone()), bx(a.clone()), vec![], bx(a.clone()))),
+        _ => {}
+    }
+    for s in starters {
+        let forms: Vec<(char, Blk)> = vec![
+            ('n', ret(vec![s.clone()])),
+            ('d', ret(vec![bin(0, a.clone(), s.clone())])),
+            ('r', ret(vec![bin(1, a.clone(), s.clone())])),
+            ('t', ret(vec![un(2, s.clone())])),
+            ('l', stmts(vec![St::Repeat(empty(), s.clone())])),
+            ('n', stmts(vec![St::GFor(vec!["k".into()], vec![s.clone()], empty())])),
+            ('e', stmts(vec![St::While(s.clone(), empty())])),
+            ('f', stmts(vec![St::If(vec![(s.clone(), empty())], None)])),
+            ('f', stmts(vec![St::If(vec![(a.clone(), empty()), (s.clone(), empty())], None)])),
+            ('n', ret(vec![Ex::IfExp(bx(a.clone()), bx(s.clone()), vec![], bx(a.clone()))])),
+            ('e', ret(vec![Ex::IfExp(bx(a.clone()), bx(a.clone()), vec![], bx(s.clone()))])),
+        ];
+        let matching: Vec<Blk> = forms.into_iter().filter(|(last, _)| *last == c1).map(|(_, b)| b).collect();
+        pick(matching, &mut out);
+    }
+    // (2b) keyword ending with c1 followed by a statement / name starting with c2
+    if let Some(name) = starter_name(c2) {
+        let assign = St::Assign(vec![id(&name)], vec![num(1.0)]);
+        let callst = St::CallSt(call(id(&name), vec![]));
+        let forms: Vec<(char, Blk)> = vec![
+            ('o', stmts(vec![St::Do(stmts(vec![assign.clone()]))])),
+            ('o', stmts(vec![St::While(a.clone(), stmts(vec![callst.clone()]))])),
+            ('n', stmts(vec![St::If(vec![(a.clone(), stmts(vec![assign.clone()]))], None)])),
+            ('e', stmts(vec![St::If(vec![(a.clone(), empty())], Some(stmts(vec![callst.clone()])))])),
+            ('t', stmts(vec![St::Repeat(stmts(vec![assign.clone()]), a.clone())])),
+            ('d', stmts(vec![St::Do(empty()), assign.clone()])),
+            ('d', stmts(vec![St::While(a.clone(), empty()), callst.clone()])),
+            ('l', stmts(vec![St::Local(vec![name.clone()], vec![])])),
+            ('r', stmts(vec![St::NFor(name.clone(), num(1.0), num(2.0), None, empty())])),
+            ('r', stmts(vec![St::GFor(vec![name.clone()], vec![a.clone()], empty())])),
+            ('n', stmts(vec![St::Function(vec![name.clone()], None, Func { params: vec![], variadic: false, body: empty() })])),
+            ('n', stmts(vec![St::LocalFn(name.clone(), Func { params: vec![], variadic: false, body: empty() })])),
+        ];
+        let matching: Vec<Blk> = forms.into_iter().filter(|(last, _)| *last == c1).map(|(_, b)| b).collect();
+        pick(matching, &mut out);
+    }
+    // (3) symbol classes
+    match (c1, c2) {
+        ('-', '-') => {
+            out.push(ret(vec![bin(9, a.clone(), num(-1.0))]));
+            out.push(ret(vec![un(1, num(-2.5))]));
+            out.push(ret(vec![bin(9, num(-1.0), num(-0.0))]));
+        }
+        ('.', d) if d.is_ascii_digit() => {
+            let n = d.to_digit(10).unwrap() as f64;
+            out.push(ret(vec![bin(CONCAT, a.clone(), num(n))]));
+            out.push(ret(vec![bin(CONCAT, Ex::Varargs, num(n))]));
+            out.push(stmts(vec![St::Compound(7, a.clone(), num(n))]));
+        }
+        (d, '.') if d.is_ascii_digit() => {
+            // an identifier ending in a digit followed by `..=` (harmless either way: the
+            // identifier ends at the dot), the only push_str/push_char route to digit·dot
+            out.push(stmts(vec![St::Compound(7, id(&format!("x{}", d)), a.clone())]));
+        }
+        (']', ']') => {
+            out.push(ret(vec![Ex::Index(bx(a.clone()), bx(Ex::Index(bx(id("b")), bx(num(1.0)))))]));
+            out.push(ret(vec![Ex::Table(vec![Entry::Idx(Ex::Index(bx(a.clone()), bx(num(1.0))), num(2.0))])]));
+            out.push(ret(vec![Ex::Index(bx(a.clone()), bx(Ex::Str(long_text(64))))]));
+        }
+        _ => {}
+    }
+    out
+}
+
+/// why no valid program of the core juxtaposes a token ending with `c1` and one starting with `c2`
+pub fn unreachable_reason(c1: char, c2: char) -> &'static str {
+    if c1.is_ascii_digit() && c2.is_ascii_digit() {
+        "digit·digit: a numeral or an identifier ending in a digit is never directly followed by a numeral"
+    } else if is_word(c1) && c2.is_ascii_digit() {
+        "word·digit: only a keyword can be directly followed by a numeral, and no keyword ends with this character"
+    } else if c1.is_ascii_digit() && c2 == '.' {
+        "digit·dot: after a numeral the writers reach `..`/`...` only through break_concat / break_variable_arguments (an identifier ending in a digit before `..=` is the one push_str route)"
+    } else if c1 == '.' && c2 == '.' {
+        "dot·dot: after `..`/`...` only `...` starts with a dot, written through break_variable_arguments"
+    } else if c1 == '[' && c2 == '[' {
+        "[·[: after `[` only a long string starts with `[`, written through break_long_string"
+    } else if c1 == '>' && c2 == '=' {
+        "`>`·`=`: only with generic type parameters (`type T<A> =`), written through break_equal; Luau type syntax"
+    } else {
+        "no form of the core grammar juxtaposes these"
     }
 }
